@@ -5,13 +5,15 @@ from mc.engine import Outcome
 ID = 'C02'
 ENGINE = 'E1 full product (writer level) + end-to-end tap'
 RULE = ("same writer-level product as C01 with position-dependent bodies (tails 01, 0202, 0c*12 so that a pad-count "
-        "mix-up changes the reassembly) and sequences of 1-3 records of different LogicalRecord classes; non-trivial "
+        "mix-up changes the reassembly) and sequences of 1-3 records of different LogicalRecord classes; end-to-end: four specifications written through DLISFile.write at "
+        "every vrl of the list, the bodies handed to the segmenter are learnt through a harness-installed wrapper of "
+        "LogicalRecordBytes.make_segments and compared with the reassembled file; non-trivial "
         "= write succeeded and the reassembled record list was compared with the given one")
 ASSUMPTIONS = ["strict reader mc/rp66.py (self-tested at start) is the trusted oracle"]
 
 
 def shards(tier):
-    return wl.wl_shards(tier)
+    return wl.wl_shards(tier) + wl.e2e_shards(tier)
 
 
 def bounds(tier):
@@ -20,10 +22,20 @@ def bounds(tier):
 
 
 def cases(shard, tier):
-    yield from wl.wl_cases(shard, tier)
+    if shard['kind'] == 'e2e':
+        yield from wl.e2e_cases(shard, tier)
+    else:
+        yield from wl.wl_cases(shard, tier)
 
 
 def run_case(case):
+    if 'e2e' in case:
+        res = wl.run_e2e(case)
+        if 'exc' in res:
+            return Outcome('e2e-raised', [("C02:e2e:valid-spec-raised", f"{res['exc']} | {case}")], False, digest=res['exc'][:40])
+        bad = wl.check_reassembly(res['data'], res['given'])
+        viol = [(f"C02:e2e:{bad[0]}", f"{bad[1]} | {case}")] if bad else []
+        return Outcome(f"ok:e2e:{case['e2e']}", viol, True, digest=wl.digest_of(res))
     res = wl.run_writer(case)
     if 'exc' in res:
         return Outcome('raised:' + res['exc'].split(':')[0], [], nontrivial=False, digest=wl.digest_of(res))
